@@ -140,6 +140,17 @@ def run_case(case):
             with captured_stdout() as buf:
                 def go():
                     img = tree.open_image(src.getvalue()) if isinstance(src, io.BytesIO) else src
+                    if case.get("listed"):
+                        # the same image object has been listed (root and every first-level item) before it is exported
+                        from mcv.checks.c10 import parse_table
+                        if isinstance(img, str):
+                            img = tree.open_image(img)
+                        for nm in parse_table(tree.ls(img, "")) or []:
+                            if nm.strip():
+                                try:
+                                    tree.ls(img, nm)
+                                except Exception:   # noqa -- what ls answers is C10's business
+                                    pass
                     export_samples_to_wav(img, dest_arg)
                 status = guarded(go, 30.0)
             out = buf.getvalue()
@@ -168,7 +179,8 @@ class Check(CheckBase):
             "(punctuation, blanks, dots, names equal after sanitising, L/R forms); 25 hostile ASCII names (separators, "
             "'..', absolute path into the watched area, quotes, control and non-ASCII characters, '(2)' forms, empty stems) as "
             "Roland sample / performance / volume names and as cue TITLEs; export into <scratch>/w/deep/dest with the "
-            "parents watched. Oracle: nothing created outside dest; Exported lines pairwise distinct and as many as files; "
+            "parents watched; singles, doubled names and neighbouring (thorough: all) pairs again on an image object whose root "
+            "and first-level items were listed before the export. Oracle: nothing created outside dest; Exported lines pairwise distinct and as many as files; "
             "every component non-empty, [\\w -.#()] only, begins with \\w, does not end in space or dot. non-trivial = two "
             "names equal after removing everything but \\w, or a separator / dot-dot in a name")
     assumptions = ["file components include the .wav extension (the on-disk name)"]
@@ -217,6 +229,17 @@ class Check(CheckBase):
             for t in (["../x", ABS], ["a/b", "a\\b"], ["a", "a"]):
                 cases.append({"kind": "cdda", "names": t, "dest": dest})
             rol.append({"kind": "roland_sample", "names": ["../x", "a"], "dest": dest})
+        # the image object was listed before the export (names are made when items are first realised)
+        for alpha, kind in ((AKAI_FILE, "akai_files"), (AKAI_DIR, "akai_dirs"), (cue_host, "cdda")):
+            for x in alpha:
+                cases.append({"kind": kind, "names": [x], "listed": True})
+                cases.append({"kind": kind, "names": [x, x], "listed": True})
+            for t in itertools.combinations(alpha, 2) if not self.quick else zip(alpha, alpha[1:] + alpha[:1]):
+                cases.append({"kind": kind, "names": list(t), "listed": True})
+        for level in ("sample", "performance", "volume"):
+            for x in rhost:
+                if len(x.replace(ABS, "/dev/shm/zq0")) <= 16:
+                    rol.append({"kind": "roland_" + level, "names": [x, x], "listed": True})
         return self.chunk(cases, 80) + self.chunk(rol, 8)
 
     def run_shard(self, shard, rep: Report):
